@@ -184,6 +184,10 @@ theorem execSimple_cursor (s : State) (fields : List String) (here : Option (Lis
       simp only [execUtil, execSet]
       split <;> first | exact setOption_cursor _ _ _ | exact CursorStep.of_same rfl rfl rfl
     | cat => exact execCat_cursor _ _
+    | closein =>
+      have := setStdin_cursor s s.stdin [] (by simp)
+      simp only [execUtil, execClose]
+      exact this
     | unknown => exact CursorStep.of_same rfl rfl rfl
 
 /-- what `step_cursor` says about one step -/
